@@ -56,8 +56,9 @@ def run(ctx):
     rng = ctx.rng
     n = ctx.count(4000)
     cases, rlines, slines, meta = [], [], [], []
-    for _ in range(n):
-        c = sg.gen_case(rng)
+    reg = [c for c in sg.regress_cases() for _ in range(3)]
+    for i in range(n + len(reg)):
+        c = reg[i] if i < len(reg) else sg.gen_case(rng)
         cap = rng.choice([1, 1, 2, 3, 4, 5, 7, 8, 13, 16, 40, 64, 65])
         pol = None if rng.random() < 0.8 else rng.choice([0, 1, 2, 4, 8, 30])
         hist = gen_hist(rng, len(c["input"]), cap)
